@@ -496,7 +496,7 @@ def num_pow(a, b):
     e.definedness(z3.Or(a.t >= 0, e.is_integer_valued(bl.t)), "fractional power of a negative base (NaN)")
     e.definedness(z3.Or(a.t != 0, bl.t >= 0), "zero to a negative power")
     r = pow_uf()(to_real(a.t), to_real(bl.t))
-    e.axiom(z3.Implies(a.t > 0, r > 0))          # a positive base has a positive power
+    e.axiom(z3.And(z3.Implies(a.t > 0, r > 0), z3.Implies(a.t >= 0, r >= 0)))          # sign of a power of a non-negative base
     return Num(r)
 
 
